@@ -497,3 +497,249 @@ def scenarios_conv(seed, n, op='from_data', max_depth=3, classes=True):
         out.append({'id': f'{seed}:{i}', 'decl': gen.decl, 'op': op, 'ty': ty, 'val': wire, 'spell': gen.r.randrange(2),
                     'stream': stream})
     return out
+
+
+# ------------------------------------------------------------------------------------------------
+# class hierarchies (C15 / C17) and construction scenarios (C14)
+SIMPLE_TYS = ['int', 'str', 'float', 'bool', {'seq': ['list', 'int']}, {'union': ['int', 'NoneType']}, {'map': ['dict', ['str', 'int']]},
+              {'tuple': ['int', 'str']}, 'any']
+STYLES = ['snake', 'camel', 'pascal', 'kebab', 'scream']
+
+
+def tv(name):
+    return {'typevar': [name, None, []]}
+
+
+class HierGen(Gen):
+    def field_decl(self, name, ty, allow_required, kw_forced_default=False):
+        r = self.r
+        f = {'name': name, 'ty': ty}
+        has_default = (not allow_required) or r.random() < 0.35 or kw_forced_default
+        spec = {}
+        q = r.random()
+        if q < 0.12:
+            spec['aliases'] = [name + '_alias', 'al_' + name][: r.randint(1, 2)]
+        elif q < 0.20:
+            spec['in_names'] = [name + 'In'] + ([name] if r.random() < 0.5 else [])
+        elif q < 0.27:
+            spec['rename'] = name + 'Renamed'
+        elif q < 0.33:
+            spec['out_name'] = name + 'Out'
+        elif q < 0.35:
+            spec['rename'] = name + 'R'
+            spec['aliases'] = ['bad']          # more than one of rename/aliases/in_names: refused
+        if r.random() < 0.07:
+            spec['exclude'] = True
+        if r.random() < 0.06:
+            spec['kw_only'] = True
+        if r.random() < 0.05:
+            spec['init'] = False
+            has_default = True
+        for flag in ('compare', 'repr'):
+            if r.random() < 0.06:
+                spec[flag] = False
+        if r.random() < 0.04:
+            spec['hash'] = r.random() < 0.5
+        if has_default:
+            if isinstance(ty, dict) and 'typevar' in ty or ty == 'any':
+                f['default'] = {'value': ENC.enc(r.choice([0, 'd', None]))}
+            elif r.random() < 0.2:
+                f['default'] = {'factory': 'list'}
+            else:
+                f['default'] = {'value': ENC.enc(self.valid(ty, 2))}
+        if spec:
+            f['spec'] = spec
+        return f
+
+    def gen_opts(self, level):
+        r = self.r
+        o = {}
+        if r.random() < 0.35:
+            o['in_format'] = r.choice([['struct'], ['tuple', 'struct'], ['tuple'], ['struct', 'tuple']])
+        if r.random() < 0.25:
+            o['out_format'] = r.choice(['tuple', 'struct'])
+        for k in ('eq', 'order', 'frozen', 'allow_extra', 'kw_only', 'unsafe_hash'):
+            if r.random() < 0.12:
+                o[k] = r.random() < 0.5
+        q = r.random()
+        if q < 0.15:
+            o['rename'] = r.choice(STYLES)
+        elif q < 0.25:
+            o['in_rename'] = r.choice([r.choice(STYLES), r.sample(STYLES, 2)])
+        elif q < 0.32:
+            o['out_rename'] = r.choice(STYLES)
+        elif q < 0.34:
+            o['rename'] = 'camel'
+            o['in_rename'] = 'snake'    # refused: ValueError
+        if r.random() < 0.12:
+            o['custom'] = [{'entries': [['int', 'tagint:%d' % r.choice([2, 3, 5])]], 'exactOnly': r.random() < 0.5}]
+        return o
+
+    def gen_hierarchy(self, depth, generic=False):
+        r = self.r
+        decls = []
+        names_pool = ['x', 'y', 'my_field', 'other_name', 'val', 'zz', 'a_b_c', 'q']
+        prev = None
+        prev_params = []
+        for lvl in range(depth):
+            name = self.fresh('H')
+            d = {'name': name, 'fields': [], 'opts': self.gen_opts(lvl), 'hook': None}
+            avail_tvars = []
+            if generic:
+                if prev is None:
+                    avail_tvars = r.sample(['T', 'U'], r.randint(1, 2))
+                    d['tvars'] = avail_tvars
+                else:
+                    args = []
+                    new_vars = []
+                    for p in prev_params:
+                        q = r.random()
+                        if q < 0.45:
+                            args.append(r.choice(['int', 'str', 'float', {'seq': ['list', 'int']}]))
+                        elif q < 0.8:
+                            v = r.choice(['V', 'W', p])
+                            args.append(tv(v))
+                            if v not in new_vars:
+                                new_vars.append(v)
+                        else:
+                            v = r.choice(['V', 'W'])
+                            args.append({'seq': ['list', tv(v)]})
+                            if v not in new_vars:
+                                new_vars.append(v)
+                    if prev_params:
+                        d['base'] = {'cls': [prev, args]}
+                    else:
+                        d['base'] = {'cls': [prev, []]}
+                    avail_tvars = list(new_vars)
+                    if new_vars and r.random() < 0.5:
+                        extra = [v for v in ['X'] if r.random() < 0.3]
+                        tvs = new_vars + extra
+                        if r.random() < 0.3:
+                            r.shuffle(tvs)
+                        d['tvars'] = tvs
+                        avail_tvars = tvs
+            elif prev is not None:
+                d['base'] = {'cls': [prev, []]}
+            nf = r.randint(0, 3)
+            kw = False
+            for fn in r.sample(names_pool, nf):
+                if not kw and r.random() < 0.1:
+                    d['fields'].append({'name': '_', 'ty': 'KW_ONLY'})
+                    kw = True
+                if avail_tvars and r.random() < 0.6:
+                    v = r.choice(avail_tvars)
+                    ty = r.choice([tv(v), {'seq': ['list', tv(v)]}, {'union': [tv(v), 'NoneType']}, {'map': ['dict', ['str', tv(v)]]},
+                                   {'tuple': [tv(v), 'int']}])
+                else:
+                    ty = r.choice(SIMPLE_TYS)
+                d['fields'].append(self.field_decl(fn, ty, allow_required=r.random() < 0.5))
+            decls.append(d)
+            prev = name
+            prev_params = avail_tvars if generic else []
+        return decls
+
+
+def scenarios_process(seed, n, generic_share=0.4):
+    g = random.Random(seed)
+    out = []
+    for i in range(n):
+        hg = HierGen(g.randrange(1 << 62), max_depth=1, classes=False)
+        generic = hg.r.random() < generic_share
+        decls = hg.gen_hierarchy(hg.r.randint(1, 4), generic=generic)
+        out.append({'id': f'p{seed}:{i}', 'decl': hg.decl, 'op': 'process', 'decls': decls, 'stream': 'generic' if generic else 'plain',
+                    'spell': hg.r.randrange(2)})
+    return out
+
+
+def scenarios_construct(seed, n):
+    """class x subset of supplied fields x path (constructor / unchecked / mapping / sequence)"""
+    g = random.Random(seed)
+    out = []
+    for i in range(n):
+        hg = HierGen(g.randrange(1 << 62), max_depth=1, classes=False)
+        r = hg.r
+        name = hg.fresh('K')
+        d = {'name': name, 'fields': [], 'opts': {}, 'hook': None}
+        if r.random() < 0.4:
+            d['opts']['in_format'] = ['tuple', 'struct']
+        if r.random() < 0.2:
+            d['opts']['frozen'] = False
+        kw = False
+        seen_default = False
+        fnames = r.sample(['x', 'y', 'my_field', 'val', 'zz'], r.randint(1, 4))
+        for fn in fnames:
+            if not kw and r.random() < 0.1:
+                d['fields'].append({'name': '_', 'ty': 'KW_ONLY'})
+                kw = True
+            ty = r.choice(['int', 'float', 'str', {'seq': ['list', 'int']}, {'union': ['int', 'str']}, {'seq': ['set', 'int']},
+                           'Fraction', {'map': ['dict', ['str', 'float']]}, {'tuple': ['int', 'float']}])
+            f = {'name': fn, 'ty': ty}
+            if seen_default or kw or r.random() < 0.5:
+                seen_default = seen_default or not kw
+                f['default'] = {'factory': 'list'} if (ty == {'seq': ['list', 'int']} and r.random() < 0.6) else {'value': ENC.enc(hg.valid(ty, 2))}
+            if r.random() < 0.15:
+                f['spec'] = {'aliases': [fn + '_alias']}
+            d['fields'].append(f)
+        if r.random() < 0.2:
+            d['hook'] = r.choice(['raise_always', 'reject_neg:' + fnames[0]])
+        hg.class_info[name] = d
+        real = [f for f in d['fields'] if f['ty'] != 'KW_ONLY']
+        supplied = [f for f in real if r.random() < 0.6]
+        path = r.choice(['construct', 'construct', 'unchecked', 'from_data_struct', 'from_data_tuple'])
+        vals = {}
+        for f in supplied:
+            p = r.random()
+            v = hg.valid(f['ty'], 1)
+            if p < 0.15:
+                v = hg.mutate(v)
+            vals[f['name']] = v
+        sc = {'id': f'k{seed}:{i}', 'decl': {'enums': [], 'subs': [], 'classes': [d]}, 'cls': name, 'stream': path, 'spell': 0}
+        if path in ('construct', 'unchecked'):
+            # positional for a prefix of the positional fields, keywords for the rest
+            pos = []
+            kwf = False
+            for f in d['fields']:
+                if f['ty'] == 'KW_ONLY':
+                    kwf = True
+                    continue
+                if not kwf:
+                    pos.append(f['name'])
+            npos = 0
+            for nm in pos:
+                if nm in vals and r.random() < 0.4:
+                    npos += 1
+                else:
+                    break
+            try:
+                sc.update(op=path, args=[ENC.enc(vals[nm]) for nm in pos[:npos]],
+                          kwargs=[[k, ENC.enc(v)] for k, v in vals.items() if k not in pos[:npos]])
+                if r.random() < 0.05:
+                    sc['kwargs'].append(['nonexistent', {'i': '1'}])
+                json.dumps(sc)
+            except Exception:
+                continue
+        elif path == 'from_data_struct':
+            try:
+                sc.update(op='from_data', ty={'cls': [name, []]}, val=ENC.enc(dict(vals)))
+                json.dumps(sc)
+            except Exception:
+                continue
+        else:
+            pos = []
+            for f in d['fields']:
+                if f['ty'] == 'KW_ONLY':
+                    break
+                pos.append(f)
+            items = []
+            for f in pos:
+                if f['name'] in vals:
+                    items.append(vals[f['name']])
+                else:
+                    break
+            try:
+                sc.update(op='from_data', ty={'cls': [name, []]}, val=ENC.enc(items))
+                json.dumps(sc)
+            except Exception:
+                continue
+        out.append(sc)
+    return out
